@@ -121,6 +121,9 @@ def _run(ctx):
             for last in ('s3', 's4'):
                 check_history_vs_fresh(ctx, pool, td, ops=[('S', list(range(histories.W)), 'm1'), ('A', 'a1'), ('B',), ('I', 's0'),
                                                             ('X', 'p0', 1), ('I', last), ('X', 'p0', 1)])
+            # the attenuation is changed on a used object and every stage is run again for the SAME source
+            check_history_vs_fresh(ctx, pool, td, ops=[('S', list(range(histories.W)), 'm2'), ('A', 'a0'), ('B',), ('I', 's1'), ('X', 'p1', 1),
+                                                        ('A', 'a1'), ('B',), ('I', 's1'), ('X', 'p1', 1)])
             check_setter_permutation(ctx, pool, td)
             check_override_equivalence(ctx, pool, td)
             if pi == 0 or ctx.tier != 'quick':
